@@ -22,6 +22,7 @@ RULE = (
     "multiples of the patch length. Non-trivial: parameters differ from initial values (where the block has any), g != e and "
     "output not identically zero; distinct by configuration."
 )
+RULE += " Also: structured special parameter values (zero / identical rows, zero column, all zeros, all ones) in every third parametrised block, explicit comparator image, GeometricImage pooling methods, magnitudes 1e-3..1e3."
 ASSUMPTIONS = ["reference action", "zones: defect <= 1e-4 held, >= 1e-3 violated, between re-drawn; structured edge inputs are only judged at >= 1e-3", "near-tie guard: relative norm gap < 1e-3 between unequal tensors in a patch => re-draw"]
 ANCHORS = [
     "ginjax.ml.layers:_group_norm_K1", "ginjax.ml.layers:GroupNorm.__call__", "ginjax.ml.layers:VectorNeuronNonlinear.__call__", "ginjax.ml.layers:MaxNormPool.__call__",
